@@ -643,11 +643,11 @@ pub fn run(ctx: &Ctx) -> Report {
     if rep.has_violation() {
         return rep;
     }
-    rep.add(run_part(ctx, "sequences", ctx.cases(20_000, 500_000), || strategy(false), check, &[]));
+    rep.add(run_part(ctx, "sequences", ctx.cases(150_000, 4_000_000), || strategy(false), check, &[]));
     if rep.has_violation() {
         return rep;
     }
-    rep.add(run_part(ctx, "sequences-with-trusted-proxies", ctx.cases(4_000, 100_000), || strategy(true), check, &[]));
+    rep.add(run_part(ctx, "sequences-with-trusted-proxies", ctx.cases(30_000, 800_000), || strategy(true), check, &[]));
     rep
 }
 
